@@ -17,5 +17,6 @@ ContentsThorough == ContentsQuick \cup { D("bin4m", 4194304), D("bin1m1", 104857
 DeliveriesAll == {"whole", "split1", "split_mid", "split1023", "split1024", "split1025", "bytes1", "pkt1", "pkt7", "pkt1024", "pktmax"}
 FrontEndsAll  == {"oneshot", "process", "gitadd", "mergedriver"}
 ExtsAll       == {"none", "rot13", "gzip", "base64", "rot13+gzip"}
+PrevsAll      == {"none", "empty", "shortdata", "ptr"}
 WtAll         == {"none", "same", "shorter", "longer", "pointer"}
 =============================================================================
